@@ -7,7 +7,11 @@ Pats == << <<Fun(V("a"), "/", V("b")), V("b")>>,
            <<Fun(V("a"), "/", V("b")), Fun(V("b"), "/", V("c"))>>,
            <<Fun(V("b"), "/", V("c")), Fun(V("a"), "\\", V("b"))>>,
            <<Fun(V("a"), "/", V("b")), Fun(Fun(V("b"), "/", V("c")), "|", V("d"))>>,
-           <<Fun(Fun(V("b"), "\\", V("c")), "|", V("d")), Fun(V("a"), "\\", V("b"))>> >>
+           <<Fun(Fun(V("b"), "\\", V("c")), "|", V("d")), Fun(V("a"), "\\", V("b"))>>,
+           \* not linear (no grammar pattern is): a variable at two places of one pattern
+           <<Fun(V("a"), "/", V("a")), V("a")>>,
+           <<V("b"), Fun(V("b"), "\\", V("b"))>>,
+           <<Fun(V("a"), "|", V("b")), Fun(V("b"), "/", V("a"))>> >>
 TFa == TF(KV("mod", "nm", FALSE), KV("form", "base", FALSE), KV("fin", "f", FALSE))
 TFx == TF(KV("mod", "X1", TRUE), KV("form", "base", FALSE), KV("fin", "f", FALSE))
 AtomsEn == {Atom("S", NoF), Atom("S", UF("dcl")), Atom("S", UF("X")), Atom("NP", UF("nb")), Atom("NP", NoF)}
